@@ -7,4 +7,5 @@ cp /repo/go.sum harness/go.sum
 mkdir -p .build .work evidence replays
 (cd harness && go build -tags verif -o ../.build/child ./cmd/child) || exit 1
 (cd harness && go build -race -tags verif -o ../.build/child-race ./cmd/child) || exit 1
+(cd harness && go build -tags 'verif constantTime' -o ../.build/childct-verif_constantTime ./cmd/childct) || exit 1
 echo setup ok
